@@ -185,9 +185,9 @@ impl Tiny {
         } else if v.len() > BITSPLITS.len() - 1 {
             return None;
         }
-        let sz = v.len() as u8;
         v.sort();
         v.dedup();
+        let sz = v.len() as u8;
         let mut last = 0;
         let mut offset = 0;
         let mut bits: usize = 0;
@@ -1244,7 +1244,9 @@ impl std::iter::FromIterator<u32> for SetU32 {
     where
         T: IntoIterator<Item = u32>,
     {
-        let v: Vec<_> = iter.into_iter().collect();
+        let mut v: Vec<_> = iter.into_iter().collect();
+        v.sort();
+        v.dedup();
         if let Some(mx) = v.iter().cloned().max() {
             if let Some(t) = Tiny::new(v.clone()) {
                 SetU32(t.to_usize() as *mut S)
